@@ -116,4 +116,29 @@ PROPS = {
         "not_covered": ["that the recorded timestamp is the current time (the clock read is inside a struct literal; only its presence is decided)"],
         "assumptions": ["serde_json: parsing what was printed yields a cookie with the same content (used only by lemma_c10_reaccept)"],
     },
+    "C14": {
+        "units": ["U9", "U4", "U3"],
+        "level": "proof",
+        "witness": [(r"max_packet_length|listen|handle", "limits")],
+        "sweep": ["limits"],
+        "explanation": "Listener::handle is extracted whole (spawned task inlined, R14) and verified for rigid but arbitrary operator constants: the call of "
+                       "Connection::listen carries the obligations max_packet_length == cfg, auth_cookie_expiry == cfg, auth_secret == cfg, and "
+                       "tokio::time::timeout must be called with the configured duration; the Connection/Listener builders are verified setters. That "
+                       "the limits then act is U4 (length <= 0 or > max_packet_length => Err before the body is read) and U3 (cookie_accept uses cfg.expiry and cfg.secret).",
+        "not_covered": ["the deadline itself (tokio::time::timeout is trusted to end the task after the given duration)",
+                        "src/lib.rs start(): that the Config fields reach the Listener builders (DynAdapter/from_config code outside the extractable subset)"],
+        "assumptions": ["spawned connection task inlined (R14): concurrency of connections erased"],
+    },
+    "C15": {
+        "units": ["U9", "U4", "U3"],
+        "level": "proof",
+        "witness": [(r".", "proxy_admission")],
+        "sweep": ["proxy_admission"],
+        "explanation": "handle's contract: the limiter is asked at most once, with effective(proxy config, socket, peer).ip, and not at all when the PROXY "
+                       "header does not parse; tagged assertions: the code after the admission step is reached only if the limiter admitted, the refused "
+                       "branch shuts the socket down and returns before any Connection exists, and the Connection is built with_client_address(effective). "
+                       "U3 then shows that this address is the one given to every adapter oracle and written into the AuthCookie.",
+        "not_covered": ["PROXY header parsing/validation itself (proxy-header crate: proxy_parse is uninterpreted)"],
+        "assumptions": ["RateLimiter::enqueue is an uninterpreted function of the call history and the key (the limiter itself: C13)"],
+    },
 }
